@@ -217,8 +217,15 @@ class Deextract:
         # verbatim lines up with the reference again
         pre_names = {t.id for a_ in pre for t in a_.targets if isinstance(t, ast.Name)}
         passthrough = {p_ for p_, v_ in given.items() if isinstance(v_, ast.Name) and v_.id == p_}
+        # `T = helper(..)` where the helper ends in its only `return T_local` and T_local has the caller's name T: the local IS the
+        # target (code moved verbatim into a helper that hands the value back) - keep the name instead of `T_3 = ..; T = T_3`
+        keep = set()
+        own_rets = [n for n in _own_walk(fn) if isinstance(n, ast.Return)]
+        if ctx == "assign" and isinstance(target, ast.Name) and len(own_rets) == 1 and fn.body and fn.body[-1] is own_rets[0] \
+                and isinstance(own_rets[0].value, ast.Name) and own_rets[0].value.id == target.id:
+            keep.add(target.id)
         for v_ in sorted((rebound | pre_names) - passthrough):
-            if v_ in self.cur_names and v_ not in bind:
+            if v_ in self.cur_names and v_ not in bind and v_ not in keep:
                 new_name = f"{v_}_{self.counter}"
                 bind[v_] = ast.Name(id=new_name, ctx=ast.Load())
                 for a_ in pre:
@@ -252,6 +259,9 @@ class Deextract:
                     out.append(ast.copy_location(ast.Assign(targets=[copy.deepcopy(tgt)], value=ast.Constant(value=None)), call))
                 new = [ast.copy_location(ast.For(target=ast.Name(id="_once", ctx=ast.Store()), iter=ast.Tuple(elts=[ast.Constant(value=None)], ctx=ast.Load()),
                                                  body=out or [ast.Pass()], orelse=[]), call)]
+        if keep:
+            new = [s_ for s_ in new if not (isinstance(s_, ast.Assign) and len(s_.targets) == 1 and isinstance(s_.targets[0], ast.Name)
+                                            and isinstance(s_.value, ast.Name) and s_.value.id == s_.targets[0].id)]
         new = pre + (new or [ast.copy_location(ast.Pass(), call)])
         for s in new:
             for n in ast.walk(s):
